@@ -7,9 +7,10 @@ typedef struct S_ZTSN3ipr4impl12_GLOBAL__N_114std_identifierE word_t;
 #define SPECS g__ZN3ipr4impl12_GLOBAL__N_114std_specifiersE
 #define QUALS g__ZN3ipr4impl12_GLOBAL__N_114std_qualifiersE
 #define WORDS g__ZN3ipr4impl12_GLOBAL__N_111known_wordsE
-#define NSPEC 18
-#define NQUAL 3
-#define NWORD 56
+/* table sizes are those of the current source (a basic name or reserved word added upstream gets covered, not a false alarm) */
+#define NSPEC ((int)(sizeof(SPECS) / sizeof(SPECS[0])))
+#define NQUAL ((int)(sizeof(QUALS) / sizeof(QUALS[0])))
+#define NWORD ((int)(sizeof(WORDS) / sizeof(WORDS[0])))
 
 /* ghost recorder behind std::vector<...>::push_back (assumed: appends a copy) */
 /* the result vector is returned by value: copying / moving it hands over the same recorded contents */
@@ -60,7 +61,7 @@ void h_qual_map(void)
 void h_unknown(void)
 {
   lex_t* lex = any_lexicon();
-  logo_t* stranger = malloc(sizeof *stranger); __CPROVER_assume(stranger != 0);   /* a logogram that is not a table entry */
+  logo_t* stranger = __CPROVER_allocate(sizeof *stranger, 1);   /* a logogram that is not a table entry: a foreign node (class id 0; an interface node has no other state) */
   __ipr_allow_exc = IPR_ALLOW_ANY;
   if (nondet_bool()) { bspec_t b; b.f_spec = stranger; @{specifiers}(lex, b); __CPROVER_assert(0, "C10: asking for the set of an unknown specifier name is refused, not answered"); }
   else { bqual_t b; b.f_qual = stranger; @{qualifiers}(lex, b); __CPROVER_assert(0, "C10: asking for the set of an unknown qualifier name is refused, not answered"); }
